@@ -1,11 +1,16 @@
 //! stream `gen` (C07, C09): both block-generator execution paths, the generator ROM, the
 //! run-oracle table (every CLVM evaluation of a case, recorded from the real interpreter) and the
 //! trusted-block helpers.  Output lines are what coq/Run/GenRun.v prints for the same case.
-use chia_bls::{PublicKey, Signature};
+use chia_bls::{sign, PublicKey, SecretKey, Signature};
 use chia_consensus::additions_and_removals::additions_and_removals;
 use chia_consensus::consensus_constants::TEST_CONSTANTS;
 use chia_consensus::flags::ConsensusFlags;
 use chia_consensus::get_puzzle_and_solution::get_puzzle_and_solution_for_coin;
+use chia_consensus::make_aggsig_final_message::make_aggsig_final_message;
+use chia_consensus::opcodes::{
+    AGG_SIG_AMOUNT, AGG_SIG_ME, AGG_SIG_PARENT, AGG_SIG_PARENT_AMOUNT, AGG_SIG_PARENT_PUZZLE, AGG_SIG_PUZZLE,
+    AGG_SIG_PUZZLE_AMOUNT,
+};
 use chia_consensus::owned_conditions::{OwnedSpendBundleConditions, OwnedSpendConditions};
 use chia_consensus::run_block_generator::{
     get_coinspends_for_trusted_block, get_coinspends_with_conditions_for_trusted_block, run_block_generator,
@@ -297,6 +302,49 @@ fn make_table(flags: ConsensusFlags, budget: u64, program: &[u8], refs: &[Vec<u8
     let bytes = node_to_bytes_backrefs(&a, node).ok()?;
     let k: Vec<u8> = keys.concat();
     Some((hexo(&k), hex::encode(bytes)))
+}
+
+fn sk_of(i: u64) -> SecretKey {
+    let mut seed = [0_u8; 32];
+    seed[0..8].copy_from_slice(&i.to_be_bytes());
+    seed[31] = 0x5a;
+    SecretKey::from_seed(&seed)
+}
+
+/// the (public key, final message) pairs of an accepted block in the order validation collects them does not matter
+/// for aggregation; returns None when a key is not one of the harness keys (gen.keys)
+fn correct_signature(o: &OwnedSpendBundleConditions) -> Option<(usize, Signature)> {
+    let sks: Vec<SecretKey> = (0..16).map(sk_of).collect();
+    let pks: Vec<PublicKey> = sks.iter().map(|s| s.public_key()).collect();
+    let mut sig = Signature::default();
+    let mut n = 0_usize;
+    let mut add = |pk: &PublicKey, msg: &[u8]| -> Option<()> {
+        let i = pks.iter().position(|k| k == pk)?;
+        sig.aggregate(&sign(&sks[i], msg));
+        n += 1;
+        Some(())
+    };
+    for sp in &o.spends {
+        for (op, list) in [
+            (AGG_SIG_PARENT, &sp.agg_sig_parent),
+            (AGG_SIG_PUZZLE, &sp.agg_sig_puzzle),
+            (AGG_SIG_AMOUNT, &sp.agg_sig_amount),
+            (AGG_SIG_PUZZLE_AMOUNT, &sp.agg_sig_puzzle_amount),
+            (AGG_SIG_PARENT_AMOUNT, &sp.agg_sig_parent_amount),
+            (AGG_SIG_PARENT_PUZZLE, &sp.agg_sig_parent_puzzle),
+            (AGG_SIG_ME, &sp.agg_sig_me),
+        ] {
+            for (pk, m) in list {
+                let mut msg: Vec<u8> = m.as_ref().to_vec();
+                make_aggsig_final_message(op, &mut msg, sp, &TEST_CONSTANTS);
+                add(pk, &msg)?;
+            }
+        }
+    }
+    for (pk, m) in &o.agg_sig_unsafe {
+        add(pk, m.as_ref())?;
+    }
+    Some((n, sig))
 }
 
 fn run_legacy(flags: ConsensusFlags, max_cost: u64, program: &[u8], refs: &[Vec<u8>]) -> Result<OwnedSpendBundleConditions, ValidationErr> {
@@ -665,6 +713,73 @@ fn run(name: &str, args: &[String]) -> Option<String> {
                     }
                 }
             })
+        }
+        "gen.oracle07sig" => {
+            // FLAGS MAXCOST PROGRAM REFS: the property with signature validation ENABLED, implementation alone.
+            // The block is first run natively without signature validation; if accepted, both paths are re-run with
+            // validation enabled and (id) the identity signature, (x) a fixed non-identity G2 point sign(sk0, "x"),
+            // (good) the correct aggregate over the collected pairs when all keys are harness keys.  Each time
+            // the two paths must give the same verdict; id must be accepted iff there are no pairs, x never.
+            let flags = flags_of(&args[0]);
+            let max_cost = dec(&args[1]);
+            let program = hx(&args[2]);
+            let refs = parse_refs(&args[3]);
+            let base = match run_native(flags | ConsensusFlags::DONT_VALIDATE_SIGNATURE, max_cost, &program, &refs) {
+                Ok(o) => o,
+                Err(_) => return Some("OK skipped-native-rejects-without-signature".into()),
+            };
+            let fv = flags & !ConsensusFlags::DONT_VALIDATE_SIGNATURE;
+            let npairs: usize = base.agg_sig_unsafe.len()
+                + base.spends.iter().map(|s| s.agg_sig_me.len() + s.agg_sig_parent.len() + s.agg_sig_puzzle.len() + s.agg_sig_amount.len()
+                    + s.agg_sig_puzzle_amount.len() + s.agg_sig_parent_amount.len() + s.agg_sig_parent_puzzle.len()).sum::<usize>();
+            let mut sigs: Vec<(&str, Signature)> = vec![("id", Signature::default()), ("x", sign(&sk_of(0), b"x"))];
+            if npairs > 0 {
+                if let Some((_, g)) = correct_signature(&base) {
+                    sigs.push(("good", g));
+                }
+            }
+            let mut out: Vec<String> = vec![format!("pairs={}", npairs)];
+            let mut bad: Vec<String> = vec![];
+            for (name, sig) in &sigs {
+                let r1 = run_block_generator(&program, &refs, max_cost, fv, sig, None, &TEST_CONSTANTS).map(|(a, c)| OwnedSpendBundleConditions::from(&a, c));
+                let r2 = run_block_generator2(&program, &refs, max_cost, fv, sig, None, &TEST_CONSTANTS).map(|(a, c)| OwnedSpendBundleConditions::from(&a, c));
+                let v = match (&r1, &r2) {
+                    (Ok(o1), Ok(o2)) => {
+                        if neutral(o1) != neutral(o2) {
+                            bad.push(format!("{}:summaries-differ", name));
+                        }
+                        "accept".to_string()
+                    }
+                    (Err(e1), Err(e2)) => {
+                        if e1.error_code() != e2.error_code() && !is_resource(e1) {
+                            bad.push(format!("{}:legacy-rejects({:?})-native-rejects({:?})", name, e1.error_code(), e2.error_code()));
+                        }
+                        format!("reject({:?})", e2.error_code())
+                    }
+                    (Err(e1), Ok(_)) => {
+                        if !is_resource(e1) {
+                            bad.push(format!("{}:legacy-rejects({:?})-native-accepts", name, e1.error_code()));
+                        }
+                        "legacy-only-rejects".to_string()
+                    }
+                    (Ok(_), Err(e2)) => {
+                        if !(flags.contains(ConsensusFlags::INTERNED_GENERATOR) && is_resource(e2)) {
+                            bad.push(format!("{}:legacy-accepts-native-rejects({:?})", name, e2.error_code()));
+                        }
+                        "native-only-rejects".to_string()
+                    }
+                };
+                // what the native path must say
+                match (*name, &r2) {
+                    ("id", Err(e)) if npairs == 0 => bad.push(format!("id:native-rejects-identity-without-pairs({:?})", e.error_code())),
+                    ("id", Ok(_)) if npairs > 0 => bad.push("id:native-accepts-identity-with-pairs".into()),
+                    ("x", Ok(_)) => bad.push("x:native-accepts-wrong-signature".into()),
+                    ("good", Err(e)) if !is_resource(e) => bad.push(format!("good:native-rejects-correct-signature({:?})", e.error_code())),
+                    _ => {}
+                }
+                out.push(format!("{}={}", name, v));
+            }
+            Some(if bad.is_empty() { format!("OK {}", out.join(" ")) } else { format!("FAIL {} ## {}", bad.join(","), out.join(" ")) })
         }
         "gen.oracle04" => {
             // FLAGS MAXCOST PROGRAM REFS: property C04 on the generator entry points, implementation alone.
